@@ -500,3 +500,19 @@ def extraction_cases(r: random.Random, tier: str) -> list[str]:
             lines += closers.pop().split("\n")
         out.append("\n".join(lines))
     return out
+
+
+# ---------------------------------------------------------------- indexes at CPython's int/str digit limit
+
+def long_index_sources() -> list[str]:
+    """Array indexes with exactly and just over sys.get_int_max_str_digits()
+    digits (leading zeros keep the VALUE small, so the expected token is cheap
+    to write down). Empty when the interpreter's limit is not the default 4300
+    that Kernels/Lex.v models."""
+    import sys
+
+    if getattr(sys, "get_int_max_str_digits", lambda: 4300)() != 4300:
+        return []
+    ok, bad = "0" * 4299 + "7", "0" * 4300 + "7"
+    return ["{{ a[" + ok + "] }}", "{{ a[" + bad + "] }}", "{{ a[-" + ok + "] }}", "{{ a[ -" + bad + " ] }}",
+            "{{ a." + ok + " }}", "{{ a.b." + bad + " }}", "{{ ['x'].-" + ok + ".c }}", "{{ x[y[" + bad + "]] }}"]
